@@ -361,7 +361,7 @@ def run_case(ctx, case):
             for k in list(alpha.items()) + list(x.items()):
                 name = ("Soln_%d" % k[0]) if isinstance(k[0], int) else k[0]
                 lo, hi, v = m.get(name + "_min"), m.get(name + "_max"), m.get(name)
-                if lo is None or hi is None or (lo == 0 and hi == 0 and v != 0 and name not in ("Soln_%d" % final,)):
+                if lo is None or hi is None:
                     continue
                 nchk += 1
                 sl = 1e-6 * max(abs(lo), abs(hi), abs(v)) + stol      # the solver accepts constraint residuals of 10 x toler (1e-9): ranges are exact to about that
